@@ -165,6 +165,12 @@ pub fn setup(root: &Path) {
 /// node i's path given its parent function: roots are r<i>, children <parent>/c<i>;
 /// i = 1 gets the name of node 0 with a suffix char so that sibling names share a string prefix.
 fn forest_paths(parent: &[Option<usize>]) -> Vec<String> {
+    forest_paths_gap(parent, 0)
+}
+
+/// `gaps` bit i set: node i sits one non-target directory below its parent (`<parent>/gap/<leaf>`),
+/// so the enclosing target is not the immediate parent directory.
+fn forest_paths_gap(parent: &[Option<usize>], gaps: u32) -> Vec<String> {
     let n = parent.len();
     let mut paths = vec![String::new(); n];
     for i in 0..n {
@@ -178,7 +184,13 @@ fn forest_paths(parent: &[Option<usize>]) -> Vec<String> {
         };
         paths[i] = match parent[i] {
             None => leaf(i, "r"),
-            Some(p) => format!("{}/{}", paths[p], leaf(i, "c")),
+            Some(p) => {
+                if gaps >> i & 1 == 1 {
+                    format!("{}/gap/{}", paths[p], leaf(i, "c"))
+                } else {
+                    format!("{}/{}", paths[p], leaf(i, "c"))
+                }
+            }
         };
     }
     paths
@@ -207,8 +219,10 @@ fn forest_path_universe() -> Vec<String> {
     let mut s = BTreeSet::new();
     for n in 1..=4 {
         for pf in all_parent_functions(n) {
-            for p in forest_paths(&pf) {
-                s.insert(p);
+            for gaps in 0..(1u32 << n) {
+                for p in forest_paths_gap(&pf, gaps) {
+                    s.insert(p);
+                }
             }
         }
     }
@@ -331,8 +345,22 @@ fn index_sweep(rep: &Report, me: Prop, root: &Path, max_n: usize, forest_extra: 
     for n in 2..=max_n {
         let pfs = all_parent_functions(n);
         let perms = permutations(n);
-        pfs.par_iter().for_each(|pf| {
-            let paths = forest_paths(pf);
+        // every forest, and every choice of which nested nodes sit below a non-target gap directory
+        let mut shapes: Vec<(Vec<Option<usize>>, u32)> = vec![];
+        for pf in &pfs {
+            let nested: Vec<usize> = (0..n).filter(|&i| pf[i].is_some()).collect();
+            for m in 0..(1u32 << nested.len()) {
+                let mut gaps = 0u32;
+                for (k, &i) in nested.iter().enumerate() {
+                    if m >> k & 1 == 1 {
+                        gaps |= 1 << i;
+                    }
+                }
+                shapes.push((pf.clone(), gaps));
+            }
+        }
+        shapes.par_iter().for_each(|(pf, gaps)| {
+            let paths = forest_paths_gap(pf, *gaps);
             // extra uses slots: (from, entry) where entry is another node's dir or a file in it
             let mut slots: Vec<(usize, String)> = vec![];
             for i in 0..n {
@@ -414,7 +442,7 @@ pub fn run(me: Prop, tier: &str, root: &Path) -> Value {
         "judged here: cases with a cycle reachable from the roots (result must be the graph-cycle error; never groups, never a panic)"
     };
     rep.finish(
-        &format!("graph level: every labelled digraph without self-loops on n<=graph_n nodes x every non-empty root subset (ascending and descending root order) through Dag as Index::new drives it; index level: the same graphs for n<=index_n as flat configurations (uses naming dirs / files) x every root subset x every changed subset (pruning), plus every increasing nesting forest on <=index_n nodes with <=forest_extra_uses extra uses edges in every declaration order x every root subset; {}; evaluations = judged (case, roots) pairs; non-trivial = distinct graphs/configurations with >=2 edges (flat) or any forest configuration", which),
+        &format!("graph level: every labelled digraph without self-loops on n<=graph_n nodes x every non-empty root subset (ascending and descending root order) through Dag as Index::new drives it; index level: the same graphs for n<=index_n as flat configurations (uses naming dirs / files) x every root subset x every changed subset (pruning), plus every increasing nesting forest on <=index_n nodes (each nested node directly below its parent or below a non-target gap directory) with <=forest_extra_uses extra uses edges in every declaration order x every root subset; {}; evaluations = judged (case, roots) pairs; non-trivial = distinct graphs/configurations with >=2 edges (flat) or any forest configuration", which),
         true,
         json!({"graph_n": gn, "index_n": inn, "forest_extra_uses": fx}),
     )
